@@ -49,8 +49,8 @@ def runPcomp (j : Json) : Json :=
        | .ok (.ok ps) => Json.arr (ps.map fun p => Json.arr #[jStr p.name, match p.default with | some d => jStr d | none => .null]).toArray
        | .ok (.error d) => Json.mkObj [("diag", .str (match d with
            | .order _ => "Invalid Parameter Order" | .badName _ => "Invalid Parameter Name" | .keyword _ => "Invalid Parameter Name"
-           | .duplicate _ => "Duplicate Parameter")),
-           ("name", jStr (match d with | .order n => n | .badName n => n | .keyword n => n | .duplicate n => n))]
+           | .duplicate _ => "Duplicate Parameter" | .emptyDefault _ => "Missing Default Value")),
+           ("name", jStr (match d with | .order n => n | .badName n => n | .keyword n => n | .duplicate n => n | .emptyDefault n => n))]
        | .error e => internalJson e)
     | "validate_passage_name" =>
       (match validatePassageName alnumH digitH s with
